@@ -209,6 +209,31 @@ pub fn run(ctx: &mut Ctx, replay: Option<&str>) {
                 }
             }
         }
+        // objects of 16 to 60 members with the reserved name first, last and at places in between; and arrays in which TWO, THREE
+        // or FOUR elements (at any depth) carry one
+        for (k, n) in [16usize, 17, 21, 33, 60].into_iter().enumerate() {
+            for at in [0, 1, n / 3, n / 2, n - 2, n - 1, n] {
+                for reserved in ["_sd", "..."] {
+                    let mut items: Vec<(String, Value)> = (0..n).map(|i| (format!("m{:02}", (i * 7) % n), json!(i))).collect();
+                    items.insert(at.min(items.len()), (reserved.to_string(), json!(["x"])));
+                    let wide = Value::Object(items.into_iter().collect());
+                    let c = if (k + at) % 2 == 0 { json!({"iss": "https://issuer.example", "exp": now + 100000, "wide": wide}) } else { json!({"iss": "https://issuer.example", "exp": now + 100000, "l": [1, [wide]]}) };
+                    let st = match (k + at) % 3 { 0 => Strategy::All, 1 => Strategy::None, _ => Strategy::Top };
+                    cases.push((IssueArgs { claims: c, strategy: st, holder: None, decoy: false, fmt: Fmt::Compact, key: crate::keys::KeyId::IssuerEc, alg: None, queue: None }, true));
+                    ctx.count("planted.in_a_wide_object");
+                }
+            }
+        }
+        for count in [2usize, 3, 4, 6] {
+            for (k, names) in [vec!["_sd"], vec!["..."], vec!["_sd", "..."]].into_iter().enumerate() {
+                let els: Vec<Value> = (0..count + 2).map(|i| if i < count { let nm = names[i % names.len()]; if i % 2 == 0 { json!({"ok": i, nm: "x"}) } else { json!([{"deep": {nm: i}}]) } } else { json!({"ok": i}) }).collect();
+                let c = json!({"iss": "https://issuer.example", "exp": now + 100000, "arr": els, "o": {"arr2": [{"a": 1}]}});
+                for st in [Strategy::All, Strategy::None] {
+                    cases.push((IssueArgs { claims: c.clone(), strategy: st, holder: None, decoy: false, fmt: if k % 2 == 0 { Fmt::Compact } else { Fmt::Json }, key: crate::keys::KeyId::IssuerEc, alg: None, queue: None }, true));
+                    ctx.count("planted.several_in_one_array");
+                }
+            }
+        }
         // a reserved name inside the value of a member that the library itself treats specially (outside the quantifier's claim
         // sets, inside the statement: "any object anywhere")
         for (k, holder_name) in ["_sd_alg", "cnf", "iss_", "aud", "nbf", "sub", "iat", "exp"].iter().enumerate() {
